@@ -31,13 +31,15 @@ LANG_STRING == "http://www.w3.org/1999/02/22-rdf-syntax-ns#langString"
 DT_CUSTOM == "http://example.org/dt/len"
 
 LexClasses == {"word", "int", "sint", "nint", "zeros", "dec", "exp", "decexp", "nan", "inf", "under", "bool", "empty", "http",
-               "urn", "date", "spaced", "langlike", "hashy", "dt_like"}
+               "urn", "date", "spaced", "langlike", "hashy", "dt_like", "huge", "multiline"}
 Witness(lc) == CASE lc = "word" -> "abc"      [] lc = "int" -> "57"        [] lc = "sint" -> "+8"      [] lc = "nint" -> "-30"
                  [] lc = "zeros" -> "007"     [] lc = "dec" -> "3.14"      [] lc = "exp" -> "1e3"      [] lc = "decexp" -> "1.5e1"
                  [] lc = "nan" -> "nan"       [] lc = "inf" -> "inf"       [] lc = "under" -> "1_000"  [] lc = "bool" -> "true"
                  [] lc = "empty" -> ""        [] lc = "http" -> "http://example.org/u0"                [] lc = "urn" -> "urn:x:1"
                  [] lc = "date" -> "2020-01-02" [] lc = "spaced" -> "a b"  [] lc = "langlike" -> "x@en" [] lc = "hashy" -> "a#b"
                  [] lc = "dt_like" -> "v^^xsd:int"
+                 [] lc = "huge" -> "1e400"                   \* a double too large for a float: float() gives inf
+                 [] lc = "multiline" -> "l1\nl2"             \* a line feed inside the lexical form
 Decls == {"plain", "lang", "integer", "decimal", "double", "float", "boolean", "date", "anyURI", "custom"}
 DeclType(d) == CASE d = "plain" -> XSD_STRING [] d = "lang" -> LANG_STRING [] d = "custom" -> DT_CUSTOM [] OTHER -> XSD \o d
 \* legal lexical forms of the XSD kinds (the free kinds take anything)
@@ -45,20 +47,20 @@ Integers_ == {"int", "sint", "nint", "zeros"}
 WellTyped(lc, d) == CASE d \in {"plain", "lang", "custom"} -> TRUE
                       [] d = "integer" -> lc \in Integers_
                       [] d = "decimal" -> lc \in Integers_ \cup {"dec"}
-                      [] d = "double" -> lc \in Integers_ \cup {"dec", "exp", "decexp"}
+                      [] d = "double" -> lc \in Integers_ \cup {"dec", "exp", "decexp", "huge"}
                       [] d = "float" -> lc \in {"int", "dec", "exp", "decexp"}
                       [] d = "boolean" -> lc = "bool"
                       [] d = "date" -> lc = "date"
                       [] d = "anyURI" -> lc \in {"http", "urn"}         \* a link written as a typed literal is a literal
 \* Turtle shorthand: the unquoted token IS a typed literal
-ShorthandDecl(lc) == CASE lc \in Integers_ -> "integer" [] lc = "dec" -> "decimal" [] lc \in {"exp", "decexp"} -> "double"
+ShorthandDecl(lc) == CASE lc \in Integers_ -> "integer" [] lc = "dec" -> "decimal" [] lc \in {"exp", "decexp", "huge"} -> "double"
                        [] lc = "bool" -> "boolean" [] OTHER -> "none"
 
 \* ---- the RDF semantics
 Faithful(lc, d) == DeclType(d)
 
 \* ---- Python: float(text) succeeds / its value is a whole number (float % 1.0 == 0; nan and inf are not)
-FloatOK(lc) == lc \in {"int", "sint", "nint", "zeros", "dec", "exp", "decexp", "nan", "inf", "under"}
+FloatOK(lc) == lc \in {"int", "sint", "nint", "zeros", "dec", "exp", "decexp", "nan", "inf", "under", "huge"}
 WholeNumber(lc) == lc \in {"int", "sint", "nint", "zeros", "exp", "decexp", "under"}
 \* shexer.utils.triple_yielders.tune_token on a token without quotes, corners or "_:"
 ByText(lc, infer) == IF infer /\ FloatOK(lc) THEN (IF WholeNumber(lc) THEN XSD_INTEGER ELSE XSD_FLOAT) ELSE XSD_STRING
